@@ -20,6 +20,19 @@ COQ = os.path.join(ROOT, 'coq')
 HARNESS = os.path.join(ROOT, 'harness')
 BUILD = os.path.join(ROOT, 'build')
 REPO = os.environ.get('VERIF_REPO', '/repo')
+SHARED_COQ, SHARED_BUILD = COQ, BUILD
+ALT = None
+if REPO != '/repo':
+    # A check of another tree (scratch worktree with a candidate change) works on a private copy of coq/ and a private
+    # build directory: the translators rewrite coq/gen, which must never disturb (or be disturbed by) checks of /repo
+    # or of other trees running at the same time. Evidence and replays of such a run stay in the private directory.
+    ALT = os.path.join(ROOT, 'build', 'alt', os.path.basename(os.path.abspath(REPO)) + '-' +
+                       hashlib.sha1(os.path.abspath(REPO).encode()).hexdigest()[:8])
+    COQ = os.path.join(ALT, 'coq')
+    BUILD = os.path.join(ALT, 'build')
+os.environ['VERIF_COQ'] = COQ
+os.environ['VERIF_BUILD'] = BUILD
+OUTROOT = ALT or ROOT   # where evidence/ and replays/ are written
 
 TRUSTED_BASE = [
     "Coq 8.16.1 kernel (coqc, vm_compute; no native_compute); full .vo build with make, never -vos",
@@ -88,9 +101,10 @@ def obs_hash(s):
 
 
 class Lock:
-    def __init__(self, name):
-        os.makedirs(BUILD, exist_ok=True)
-        self.path = os.path.join(BUILD, '.' + name + '.lock')
+    def __init__(self, name, base=None):
+        base = base or BUILD
+        os.makedirs(base, exist_ok=True)
+        self.path = os.path.join(base, '.' + name + '.lock')
 
     def __enter__(self):
         self.f = open(self.path, 'w')
@@ -131,7 +145,7 @@ class Ctx:
     # ---- building ----
     def go_build(self, pkg, tags='verif', race=False):
         """build harness/<pkg> against the current tree of the repository; returns binary path"""
-        out = os.path.join(HARNESS, 'bin', pkg + ('-race' if race else '') + ('' if REPO == '/repo' else '-alt'))
+        out = os.path.join(os.path.join(BUILD, 'bin') if ALT else os.path.join(HARNESS, 'bin'), pkg + ('-race' if race else ''))
         os.makedirs(os.path.dirname(out), exist_ok=True)
         try:
             shutil.copy(os.path.join(REPO, 'go.sum'), os.path.join(HARNESS, 'go.sum'))
@@ -160,6 +174,15 @@ class Ctx:
         os.makedirs(cdir, exist_ok=True)
         for f in glob.glob(os.path.join(cdir, '%s_%s_*' % (self.pid, tag))):
             os.remove(f)
+        # the imported libraries need not lie in the closure of the property's theorem files: bring them up to date
+        # with the regenerated gen/*.v (a stale .vo would make the evaluation fail on inconsistent assumptions)
+        tg = ' '.join(i.replace('.', '/') + '.vo' for i in ['model.Show'] + list(imports))
+        with Lock('coq'):
+            q, _ = sh('make -q ' + tg, cwd=COQ)
+            if q != 0:
+                rc, out = sh("make -k -j16 COQC='timeout 1500 coqc' " + tg, cwd=COQ, timeout=3000)
+                if rc != 0:
+                    raise BuildError('building the libraries the cases import failed:\n' + out[-3000:])
         shards = [triples[i:i + shard] for i in range(0, len(triples), shard)]
         files = []
         for k, sh_ in enumerate(shards):
@@ -408,8 +431,20 @@ def evaluate_case_file(ctx, path, imports, corr=None, max_samples=3, nontrivial_
 
 # ---------------- main ----------------
 
+def prepare_alt():
+    """private copy of coq/ (with its compiled files) and of the extracted runners for a check of another tree"""
+    if not ALT:
+        return
+    os.makedirs(COQ, exist_ok=True)
+    os.makedirs(BUILD, exist_ok=True)
+    with Lock('coq', SHARED_BUILD):   # nobody is compiling in the shared tree while it is copied
+        sh(['rsync', '-a', '--delete', SHARED_COQ + '/', COQ + '/'], check=True)
+        if os.path.isdir(os.path.join(SHARED_BUILD, 'extract')):
+            sh(['rsync', '-a', os.path.join(SHARED_BUILD, 'extract') + '/', os.path.join(BUILD, 'extract') + '/'])
+
+
 def write_replay(pid, n, obj):
-    d = os.path.join(ROOT, 'replays')
+    d = os.path.join(OUTROOT, 'replays')
     os.makedirs(d, exist_ok=True)
     p = os.path.join(d, '%s-%d.json' % (pid, n))
     json.dump(obj, open(p, 'w'), indent=1, default=str)
@@ -438,6 +473,8 @@ def main():
     except ValueError:
         seed = 1
     sys.path.insert(0, ROOT)
+    if not replay:
+        prepare_alt()
     plugin = importlib.import_module('checks.' + pid.lower())
     ctx = Ctx(pid, tier, seed)
 
@@ -566,8 +603,8 @@ def main():
         # the exploration-style counts (evaluations / distinct_nontrivial), which are present
         del ev['coverage']['discharged']
         ev['coverage']['discharged_count'] = 0
-    os.makedirs(os.path.join(ROOT, 'evidence'), exist_ok=True)
-    json.dump(ev, open(os.path.join(ROOT, 'evidence', pid + '.json'), 'w'), indent=1, default=str)
+    os.makedirs(os.path.join(OUTROOT, 'evidence'), exist_ok=True)
+    json.dump(ev, open(os.path.join(OUTROOT, 'evidence', pid + '.json'), 'w'), indent=1, default=str)
 
     for l in known_out:
         print(l)
